@@ -161,6 +161,7 @@ type Projector struct {
 	started  bool
 	dead     bool
 	Observer func(p *Projector, h uint64, ms store.Momentum, ev Event) // adds liabilities / rewards to a Mom event
+	LastRaw  *RawEvent                                                  // the momentum event being projected (for observers)
 	LastMom  uint64
 }
 
@@ -423,7 +424,9 @@ func (p *Projector) momentum(e *RawEvent) error {
 			cpost = append(cpost, ATV{addr.String(), zts.String(), ToDigits(v)})
 		}
 	}
-	ev := Event{"ev": "Mom", "h": m.Height, "bids": bids, "sids": sids, "cpost": cpost, "liab": []Liab{}, "rew": []Rew{}}
+	ev := Event{"ev": "Mom", "h": m.Height, "bids": bids, "sids": sids, "cpost": cpost, "liab": []Liab{}, "rew": []Rew{},
+		"time": m.Timestamp, "rel": []Released{}, "app": []Appeared{}, "pays": []Pay{}}
+	p.LastRaw = e
 	if p.Observer != nil {
 		p.Observer(p, m.Height, momentum.NewStore(nil, p.mirror), ev)
 	}
